@@ -76,6 +76,49 @@ def run(rep, tier, rng):
             if nfail == 1:
                 rep.violation({"kind": "oracle", "what": msg, "case_kind": "read", "case": c, "ops": ops,
                                "file": ["different sizes", "equal sizes", "null record in the middle", "record of another type in the middle"][mi]})
+    # ---- the complete Reader (shape + attribute row pairs): after a seek or a partial iteration the bulk read
+    # `Reader::read` starts where the reader stands, for shapes and rows alike
+    import C08
+    import shapes as SH
+    pcases, pmeta = [], []
+    for code in (1, 13, 28):
+        calls = [(0, SH.gen_ctor(rng, code, "small")) for _ in range(4)]
+        for ops in ([("readall",)], [("seek", 1), ("readall",)], [("seek", 3), ("readall",)], [("it", 1), ("readall",)],
+                    [("it", 2), ("seek", 1), ("it", 1), ("readall",)], [("seek", 2), ("count",), ("readall",)]):
+            pcases.append(C08.pair_case(calls, ops))
+            pmeta.append(ops)
+    pimpl = stages.correspondence(rep, "pair", dev, pcases, "pair(complete Reader: seek / partial iteration, then bulk read)")
+    ref_shapes = {}
+    for i, (c, ops, r) in enumerate(zip(pcases, pmeta, pimpl)):
+        if ops == [("readall",)]:
+            rr = C08.parse_pair(r, 4, ops)
+            if "ops" in rr:
+                ref_shapes[i // 6] = [it[1] for it in rr["ops"][0]["items"] if it[0] == "ok"]
+    for ci, (c, ops, r) in enumerate(zip(pcases, pmeta, pimpl)):
+        res = C08.parse_pair(r, 4, ops)
+        msg = None
+        if "ops" not in res:
+            msg = "the complete reader could not be opened"
+        else:
+            pos = 0
+            for o, out in zip(ops, res["ops"]):
+                if o[0] == "seek":
+                    pos = o[1]
+                elif o[0] in ("it", "readall"):
+                    k = 4 - pos if o[0] == "readall" else o[1]
+                    ids = [(it[2] if it[0] == "ok" else it) for it in out["items"]]
+                    if ids != list(range(pos, pos + k)):
+                        msg = "after %r the complete reader returned the pairs with rows %r, expected %r" % (ops, ids, list(range(pos, pos + k)))
+                    else:
+                        ref = ref_shapes.get(ci // 6)
+                        for it in out["items"]:
+                            if ref and it[0] == "ok" and it[2] < len(ref) and list(it[1]) != list(ref[it[2]]):
+                                msg = "after %r the complete reader paired row %d with another shape than shape %d" % (ops, it[2], it[2])
+                    pos += k
+        if msg:
+            nfail += 1
+            if nfail == 1:
+                rep.violation({"kind": "oracle", "what": msg, "case_kind": "pair", "case": c[:300]})
     rep.sample({"ops": meta[40][1]})
     rep.cov["oracle"] = {"checked": len(cases), "failing": nfail}
     rep.assumptions += ["the complete Reader (shape + attribute row pairs follow the same positions) is exercised by C08's pair "
